@@ -791,6 +791,27 @@ fn cfgs14() -> Vec<Cfg> {
             v.push(c);
         }
     }
+    // extreme values: a set whose identifier and numeric value are both all-zero (what a padded or
+    // erased table entry looks like) or all-ones, at every index of every n <= 5, in both formats;
+    // and tables made of such sets only
+    for n in 1..=5usize {
+        for k in 0..n {
+            for (fmt, id, num) in [(0u8, 0u32, 0u16), (1, 0, 0), (0, 0xFFFF, 0xFFFF), (1, 0xFFFF_FFFF, 0xFFFF)] {
+                for others in [0u8, 1] {
+                    let mut c = mk(vec![others; n]);
+                    c.vendors[k] = (fmt, id, num);
+                    v.push(c);
+                }
+            }
+        }
+        for (fmt, id, num) in [(0u8, 0u32, 0u16), (1, 0, 0), (0, 0xFFFF, 0xFFFF)] {
+            let mut c = mk(vec![fmt; n]);
+            for i in 0..n {
+                c.vendors[i] = (fmt, id, num);
+            }
+            v.push(c);
+        }
+    }
     v
 }
 
@@ -798,8 +819,13 @@ fn vendor_req(sel: u8) -> Event {
     req(0x06, &[sel])
 }
 
+/// The same request from a requester that stamps every request with one instance id.
+fn vendor_req_iid(sel: u8, iid: u8) -> Event {
+    Event::Process(forge_request(SRC, DST, iid, false, 0x06, &[sel]))
+}
+
 /// The requester's walk: start at selector 0, follow the returned selectors.
-fn walk(cfg: &Cfg) -> (Vec<u8>, Option<String>, u64) {
+fn walk(cfg: &Cfg, iid: u8) -> (Vec<u8>, Option<String>, u64) {
     let owned = Owned::new(cfg);
     let mut ctx = owned.ctx();
     let r = RefEndpoint::new(cfg);
@@ -815,7 +841,7 @@ fn walk(cfg: &Cfg) -> (Vec<u8>, Option<String>, u64) {
             return (visited.clone(), Some(format!("the walk was sent to selector {:#04x} which is not a configured set (visited {:?})", sel, visited)), calls);
         }
         visited.push(sel);
-        let obs = subject::apply(&mut ctx, &vendor_req(sel));
+        let obs = subject::apply(&mut ctx, &vendor_req_iid(sel, iid));
         calls += 1;
         let StepOut::Proc { out, resp, .. } = &obs.out else { return (visited, Some("harness: not a process step".into()), calls) };
         let Some(len) = out.resp_len else {
@@ -855,7 +881,9 @@ pub fn run_c14(run: &mut Run) {
         o
     };
     let total = *offs.last().unwrap();
-    run.sweep("per configuration: every selector, every ordered pair, the walk", total, |acc, i| {
+    run.sweep("per configuration: every selector, every ordered pair, the walk; all requests with instance id 0, and again with a constant instance id 5", total * 2, |acc, i| {
+        let iid = if i >= total { 5u8 } else { 0 };
+        let i = i % total;
         let k = match offs.binary_search(&i) {
             Ok(k) => k,
             Err(k) => k - 1,
@@ -866,7 +894,7 @@ pub fn run_c14(run: &mut Run) {
         acc.evals += 1;
         acc.validated += 1;
         if r == n + n * n {
-            let (visited, err, calls) = walk(cfg);
+            let (visited, err, calls) = walk(cfg, iid);
             acc.trans += calls;
             acc.outcome2("walk", if err.is_none() { "complete" } else { "broken" });
             acc.state(Fnv::default().u64(0x14).u64(fp(cfg)).bytes(&visited).finish());
@@ -874,19 +902,19 @@ pub fn run_c14(run: &mut Run) {
                 acc.sample(|| json!({"configuration_formats": cfg.vendors.iter().map(|v| v.0).collect::<Vec<_>>(), "walk_visited": visited}));
             }
             if let Some(e) = err {
-                acc.violation(n, "walk", e, || json!({"prop": "C14", "check": "walk", "cfg": cfg}));
+                acc.violation(n, "walk", e, || json!({"prop": "C14", "check": "walk", "cfg": cfg, "iid": iid}));
             }
             return;
         }
         let seq: Vec<u8> = if r < n { vec![r as u8] } else { vec![((r - n) / n) as u8, ((r - n) % n) as u8] };
-        let m = Machine { cfg: cfg.clone(), init: vec![], alphabet: seq.iter().map(|&s| vendor_req(s)).collect() };
+        let m = Machine { cfg: cfg.clone(), init: vec![], alphabet: seq.iter().map(|&s| vendor_req_iid(s, iid)).collect() };
         let idx: Vec<u8> = (0..seq.len() as u8).collect();
         let owned = Owned::new(cfg);
         let node = m.eval(&owned, &probes(cfg), &idx);
         acc.trans += node.calls;
-        acc.state(node.key);
+        acc.state(node.key ^ iid as u64);
         if seq.len() >= 2 {
-            acc.nontrivial(Fnv::default().u64(0x140).u64(i).finish());
+            acc.nontrivial(Fnv::default().u64(0x140).u64(i).u64(iid as u64).finish());
         }
         acc.outcome2("selector-sequence", if node.diffs.is_empty() { "agrees" } else { "differs" });
         let h = m.history(&idx);
@@ -1086,7 +1114,7 @@ pub fn replay_c14(case: &Value) -> Result<ReplayOut, String> {
     }
     if get_str(case, "check")? == "walk" {
         let cfg: Cfg = get_de(case, "cfg")?;
-        let (visited, err, _) = walk(&cfg);
+        let (visited, err, _) = walk(&cfg, case["iid"].as_u64().unwrap_or(0) as u8);
         return Ok(ReplayOut { violations: err.into_iter().collect(), observed: format!("{:?}", visited) });
     }
     replay_filtered(case, &c14_filter)
